@@ -54,7 +54,7 @@ def guard_rules(repo, res, rule="GUARD"):
     for s, gs in sg:
         if gs:
             c = A.resolve(gs[0][0]["cond"], envs.get(id(gs[0][0])))
-            ok = c[0] == "mcall" and c[1] == "is_empty" and "iter_call_variants" in A.show(c[2])
+            ok = c[0] == "mcall" and c[1] == "is_empty" and ("iter_call_variants" in A.show(c[2]) or "iter_call_variants" in A.reach_calls(gs[0][0]["cond"], envs.get(id(gs[0][0])), fn=fn, envs=envs))
             why = f"under `{A.show(c)[:100]}`"
     res.check(ok, rule, f"{rule}:{fq}:MissingCallVariants", why, fn.loc())
     # VaryingCommandNames <= commands.len() > 1 after dedup by name
@@ -64,7 +64,7 @@ def guard_rules(repo, res, rule="GUARD"):
         if gs:
             c = gs[0][0]["cond"]
             p = A.resolve(c, envs.get(id(gs[0][0])))
-            ok = p[0] == "bin" and p[1] == ">" and p[2][0] == "mcall" and p[2][1] == "len" and p[3] == ("lit", "1") and "iter_call_variants" in A.show(p[2])
+            ok = p[0] == "bin" and p[1] == ">" and p[2][0] == "mcall" and p[2][1] == "len" and p[3] == ("lit", "1") and ("iter_call_variants" in A.show(p[2]) or "iter_call_variants" in A.reach_calls(c, envs.get(id(gs[0][0])), fn=fn, envs=envs))
             dd = [x for x in P.find_calls(fn.body, names={"stable_dedup_by"}) if A.before(x, gs[0][0])]
             ok = ok and len(dd) == 1
             why = f"under `{A.show(p)[:100]}` after dedup by name"
